@@ -173,7 +173,14 @@ func wireDiff(d *core.StateDiff) string {
 		}
 		fmt.Fprintf(&b, `{"address":"%s","class_hash":"%s"}`, a.String(), d.DeployedContracts[a].String())
 	}
-	b.WriteString(`],"old_declared_contracts":[],"declared_classes":[`)
+	b.WriteString(`],"old_declared_contracts":[`)
+	for i, h := range d.DeclaredV0Classes {
+		if i > 0 {
+			b.WriteByte(',')
+		}
+		fmt.Fprintf(&b, `"%s"`, h.String())
+	}
+	b.WriteString(`],"declared_classes":[`)
 	for i, a := range sortedKeys(d.DeclaredV1Classes) {
 		if i > 0 {
 			b.WriteByte(',')
@@ -186,6 +193,20 @@ func wireDiff(d *core.StateDiff) string {
 			b.WriteByte(',')
 		}
 		fmt.Fprintf(&b, `{"address":"%s","class_hash":"%s"}`, a.String(), d.ReplacedClasses[a].String())
+	}
+	b.WriteString(`],"migrated_compiled_classes":[`)
+	{
+		mk := make(map[felt.Felt]felt.Felt, len(d.MigratedClasses))
+		for h, c := range d.MigratedClasses {
+			mk[felt.Felt(h)] = felt.Felt(c)
+		}
+		for i, h := range sortedKeys(mk) {
+			if i > 0 {
+				b.WriteByte(',')
+			}
+			c := mk[h]
+			fmt.Fprintf(&b, `{"class_hash":"%s","compiled_class_hash":"%s"}`, h.String(), c.String())
+		}
 	}
 	b.WriteString(`]}`)
 	return b.String()
@@ -227,6 +248,13 @@ func memo(key string, f func() []byte) []byte {
 	return b
 }
 
+func memoHas(key string) bool {
+	wireMu.Lock()
+	defer wireMu.Unlock()
+	_, ok := wireMemo[key]
+	return ok
+}
+
 func txList(s uint64, i, from, to int) (txs, rcs, sds string) {
 	var a, b, c []string
 	for k := from; k < to; k++ {
@@ -245,11 +273,17 @@ func fullJSON(s uint64, i, c int) []byte {
 }
 
 func fullJSONOf(s uint64, id string, ts uint64, txs, rcs, sds string) []byte {
+	return fullJSONVer(s, id, ts, txs, rcs, sds, pcVersion)
+}
+
+// fullJSONVer: the same full block with an explicit starknet_version (harness D delivers 0.14.1 blocks, the version
+// that introduced migrated_compiled_classes).
+func fullJSONVer(s uint64, id string, ts uint64, txs, rcs, sds, version string) []byte {
 	return []byte(fmt.Sprintf(`{"changed":true,"block_number":%d,"block_identifier":"%s","transactions":[%s],"transaction_receipts":[%s],"transaction_state_diffs":[%s],`+
 		`"status":"PRE_CONFIRMED","timestamp":%d,"starknet_version":"%s","sequencer_address":"0x5e9",`+
 		`"l1_gas_price":{"price_in_wei":"0x6a5","price_in_fri":"0x6a6"},"l2_gas_price":{"price_in_wei":"0x2a1","price_in_fri":"0x2a2"},`+
 		`"l1_da_mode":"BLOB","l1_data_gas_price":{"price_in_wei":"0xda1","price_in_fri":"0xda2"}}`,
-		s, id, txs, rcs, sds, ts, pcVersion))
+		s, id, txs, rcs, sds, ts, version))
 }
 
 // deltaJSON: transactions from..to-1 appended under identifier i.
